@@ -189,6 +189,22 @@ theorem lazy_init_safe (f : Nat → Nat) (n : Nat) (ts : List Thread) (hwf : ∀
     ∀ t ∈ ((start n ts).run sched).thr, ∀ p ∈ t.obs, p.2 = (final f n)[p.1]? :=
   fun t ht => ((run_inv sched (start_inv hwf)).2 t ht).obsOk
 
+/-- **Every reader gets the final table**: once a thread of a well-formed pool has finished, what it
+observed is exactly the final table at each slot it looked up, in order — whatever the other threads did
+and whatever the schedule was. -/
+theorem finished_sees_final_table (f : Nat → Nat) (n : Nat) (ts : List Thread) (hwf : ∀ t ∈ ts, WellFormed f n t)
+    (sched : List Nat) (k : Nat) (t0 t : Thread) (h0 : ts[k]? = some t0)
+    (ht : ((start n ts).run sched).thr[k]? = some t) (hdone : t.init = [] ∧ t.use = []) :
+    t.obs = (pending t0.use).map (fun j => (j, (final f n)[j]?)) := by
+  have hobs := lazy_init_safe f n ts hwf sched t (List.mem_of_getElem? ht)
+  have htr := (run_tracks sched (start_tracks hwf)).2 k t0 t h0 ht
+  have hfst : t.obs.map Prod.fst = pending t0.use := by
+    have := htr.2
+    rw [hdone.2] at this
+    simpa [pending] using this
+  rw [← hfst]
+  exact obs_eq_of_ok t.obs hobs
+
 /-- `if (!init) { fill; init = 1; }` (dos_*, crc_tbl): safe for every number of threads and every schedule. -/
 theorem fillThenFlag_safe (f : Nat → Nat) (n : Nat) (jss : List (List Nat)) (sched : List Nat) :
     ∀ t ∈ ((start n (jss.map (fillThenFlag f n))).run sched).thr, ∀ p ∈ t.obs, p.2 = (final f n)[p.1]? :=
@@ -209,6 +225,11 @@ theorem idempotentFill_safe (f : Nat → Nat) (n : Nat) (jss : List (List Nat)) 
 example :
     ((start 2 [fillThenFlag (· + 5) 2 [1], fillThenFlag (· + 5) 2 [0]]).run [0, 0, 0, 0, 1, 1, 0]).thr.map (·.obs)
       = [[(1, some 6)], [(0, some 5)]] := by decide
+
+/-- … and in that schedule both threads have finished (the hypothesis of `finished_sees_final_table`). -/
+example :
+    let s := (start 2 [fillThenFlag (· + 5) 2 [1], fillThenFlag (· + 5) 2 [0]]).run [0, 0, 0, 0, 1, 1, 0]
+    s.finished 0 = true ∧ s.finished 1 = true ∧ (s.thr.map (·.sawFlag)) = [false, true] := by decide
 
 /-- Full-strength statement for the flag-first idiom. -/
 def FlagFirstSafe : Prop :=
